@@ -241,11 +241,12 @@ def blockKey (P : Prims) (hmacKey : Bytes) (index : Nat) : Bytes := P.sha512 (to
 def blockMac (P : Prims) (hmacKey : Bytes) (index : Nat) (sizeBytes block : Bytes) : Bytes :=
   P.hmac256 (blockKey P hmacKey index) (toLe64 index ++ sizeBytes ++ block)
 
-/-- `read_hmac_block_stream`: the loop runs while input remains; a zero-length block stops it -/
+/-- `read_hmac_block_stream`: the loop runs while input remains; a zero-length block stops it; input that runs out before
+    the zero-length block is a stream cut short (after the repair of F21) -/
 def readBlocks (P : Prims) (hmacKey : Bytes) : Nat → Bytes → Nat → Bytes → Outcome Bytes
   | 0, _, _, out => .ok out
   | fuel + 1, rest, idx, out =>
-    if rest = [] then .ok out
+    if rest = [] then .err .integrity
     else if rest.length < 32 then .err .integrity
     else
       let mac := rest.take 32
